@@ -703,6 +703,7 @@ fn factory_cases(ctx: &Arc<Ctx>) {
 		// misspelled / unknown parameter names, text that is no boolean for a flag, a source list behind an
 		// operation that takes none
 		bad_transforms.extend(["filter_zoom mni=3 max=5", "filter_zoom minzoom=3", "filter_zoom Min=3", "filter_zoom min=1 zoom=2", "filter_bbox bbox=[1,2,3,4] max=3", "filter_bbox bbox=[1,2,3,4] bboxx=[1,2,3,4]"].map(String::from));
+		bad_transforms.extend(["filter_zoom [ from_debug format=pbf ]", "filter_zoom [ from_container filename=\"mem:1\" ]", "filter_zoom [ from_debug format=pbf, from_debug format=pbf ]", "filter_zoom\n[ bogus ]"].map(String::from));
 		bad_transforms.extend(["filter_zoom min=1 [ from_debug format=pbf ]", "filter_zoom min=1 [ bogus a=b ]", "filter_bbox bbox=[1,2,3,4] [ from_container filename=\"mem:1\" ]"].map(String::from));
 		bad_transforms.push(format!("{up} id_field=\"id\""));
 		for key in ["replace_properties", "remove_non_matching", "include_id"] {
@@ -790,6 +791,21 @@ fn factory_cases(ctx: &Arc<Ctx>) {
 				}
 			}
 			Ok(_) => ctx.violation("an unknown operation or a missing / mistyped parameter is accepted", v, json!({"kind": "factory", "vpl": v})),
+		}
+	}
+	// a factory that has rejected texts builds the valid ones as before (nothing an error path leaves behind changes
+	// what a later text means)
+	for round in 0..2 {
+		for v in &valid {
+			ctx.eval();
+			if let Err(e) = pipeline::build_op(&rt, &fac, v) {
+				ctx.violation("a valid pipeline cannot be built after the factory has rejected other texts", &format!("{v} (after {} rejected texts, round {round}): {e}", invalid.len()), json!({"kind": "factory-after-rejections", "vpl": v}));
+			}
+		}
+		let deep = format!("{}from_debug format=pbf{}", "from_overlayed [ ".repeat(40), ", from_debug format=pbf ]".repeat(40));
+		ctx.eval();
+		if let Err(e) = pipeline::build_op(&rt, &fac, &deep) {
+			ctx.violation("a valid pipeline cannot be built after the factory has rejected other texts", &format!("source lists nested 40 deep: {}", e.chars().take(200).collect::<String>()), json!({"kind": "factory-after-rejections", "vpl": "40 nested source lists"}));
 		}
 	}
 	// the built pipeline applies the operations in the written order (non-commuting transforms)
